@@ -368,3 +368,7 @@ import os as _os
 for _p in sorted(_glob.glob(ROOT + '/seeded/*/patch.diff')):
     _sid = _p.split('/')[-2]
     pm(f'seed-{_sid}', _sid.split('-')[0], f'seeded/{_sid}/patch.diff', 'fire', None, 'seeded change, confirmed by its demonstration (see seeded/%s/meta.json)' % _sid)
+
+m('c03-waiting-exit-release-dropped', 'C03', PS, "    def exit(self) -> None:\n        super().exit()\n        # The state can be left while a step is still blocked on the waiting future (the process was failed from\n        # outside the step, e.g. by a scheduled callback that raised): release that step, the process has moved on\n        if not self._waiting_future.done():\n            self._waiting_future.set_result(NULL)\n\n    def interrupt", "    def interrupt", 'fire', 'Process.fail', 'reverts the G19 fix')
+m('c02-waiting-exit-release-dropped', 'C02', PS, "    def exit(self) -> None:\n        super().exit()\n        # The state can be left while a step is still blocked on the waiting future (the process was failed from\n        # outside the step, e.g. by a scheduled callback that raised): release that step, the process has moved on\n        if not self._waiting_future.done():\n            self._waiting_future.set_result(NULL)\n\n    def interrupt", "    def interrupt", 'fire', 'Process.fail', 'reverts the G19 fix')
+m('c03-waiting-exit-release-unguarded', 'C03', PS, "        if not self._waiting_future.done():\n            self._waiting_future.set_result(NULL)\n\n    def interrupt", "        self._waiting_future.set_result(NULL)\n\n    def interrupt", 'fire', 'Waiting.exit', 'the release raises InvalidStateError on the normal way out of WAITING')
